@@ -240,22 +240,130 @@ def h_program(ex, prefix, length):
     ex.check((not lib_ok) or c_ok, 'never-valid-when-consensus-rejects', known=known)
 
 
+def h_dispatch(ex, opcodes, lens, maxdepth=3):
+    """the real Script.evaluate on  <0..3 symbolic pushes> OPCODE  vs the reference for the opcode NUMBER taken from
+    Bitcoin Core's table: checks the opcode-number -> method dispatch and the final verdict/stack"""
+    E, S = _mods()
+    opcode = ex.choose('opcode', opcodes)
+    depth = ex.choose('depth', list(range(maxdepth + 1)))
+    items = []
+    for k in range(depth):
+        ln = ex.choose('len%d' % k, lens)
+        items.append(ex.bytes('s%d' % k, ln) if ln else b'')
+    # with a trailing OP_1 the result of OPCODE stays on the stack and is compared; without it the final verdict test
+    # is applied to the result
+    tail = ex.choose('tail', ['op_1', 'none'])
+    cmds = items + [opcode] + ([0x51] if tail == 'op_1' else [])
+    s = S.Script(commands=list(cmds))
+    try:
+        lib_ok = bool(s.evaluate())
+    except Exception:
+        lib_ok = False
+    lib_st = list(s.stack)
+    hf = _hashf(ex)
+
+    def ref(dev, names):
+        ok, st = interp.eval_program(cmds, interp.Ctx(dev=dev, hashf=hf), names)
+        return ok, (st[:-1] if ok else st)
+    c_ok, c_st = ref((), interp.CORE_OPCODES)
+    prop = outcome_eq(lib_ok, lib_st, c_ok, c_st)
+    known = []
+    fl = listed_flags()
+    if fl and kf_listed('C19-programs-inherit-listed-deviations'):
+        names = dict(interp.CORE_OPCODES)
+        if kf_listed('C19-lessthan-family-not-dispatchable'):
+            for c in (0x9f, 0xa0, 0xa1, 0xa2):
+                names.pop(c)
+        d_ok, d_st = ref(set(fl), names)
+        fid = 'C19-lessthan-family-not-dispatchable' if opcode in (0x9f, 0xa0, 0xa1, 0xa2) else 'C19-programs-inherit-listed-deviations'
+        known = kf(fid, outcome_eq(lib_ok, lib_st, d_ok, d_st))
+    ex.check(prop, 'dispatch_%02x-consensus' % opcode, known=known)
+    ex.check((not lib_ok) or c_ok, 'dispatch_%02x-never-valid-when-consensus-rejects' % opcode, known=known)
+
+
+FLOW = ['push', 99, 100, 103, 104]
+
+
+def h_if_step(ex, opname, first, length):
+    """one step of the library's conditional handling from an arbitrary position: Stack.op_if / op_notif rewrite the
+    remaining command list (they splice the selected branch in front of the rest).  For every remaining command
+    list of <= `length` commands over {push of a symbolic 1-byte item, IF, NOTIF, ELSE, ENDIF} and every condition
+    item, the reference verdict of  <stack> IF <commands>  must equal the reference verdict of the rewritten
+    <stack'> <commands'>  (and a refusal by the library must coincide with consensus failure)."""
+    E, S = _mods()
+    n = ex.choose('n', list(range(1, length + 1)))
+    cmds = []
+    for k in range(n):
+        c = first if k == 0 else ex.choose('cmd%d' % k, FLOW)
+        cmds.append(ex.bytes('p%d' % k, 1) if c == 'push' else c)
+    tl = ex.choose('toplen', [0, 1, 2])
+    top = ex.bytes('top', tl) if tl else b''
+    below = ex.bytes('below', 1)
+    st = S.Stack([below, top])
+    rest = list(cmds)
+    try:
+        r = getattr(st, 'op_' + opname)(rest)
+    except Exception:
+        r = False
+    code = 99 if opname == 'if' else 100
+    before_ok, _ = interp.eval_program([below, top, code] + cmds, interp.Ctx(), NAMES)
+    if r is False:
+        ex.check(not before_ok, 'op_%s-refusal-only-when-consensus-fails' % opname)
+        return
+    after_ok, _ = interp.eval_program(list(st) + rest, interp.Ctx(), NAMES)
+    ex.check(before_ok == after_ok, 'op_%s-step-preserves-consensus-verdict' % opname,
+             known=[])
+
+
+def _multi_else(cmds):
+    """does the command list contain two ELSE at nesting level 1 before the matching ENDIF (consensus toggles on each)"""
+    level, elses = 1, 0
+    for c in cmds:
+        if c in (99, 100):
+            level += 1
+        elif c == 104:
+            level -= 1
+            if level == 0:
+                break
+        elif c == 103 and level == 1:
+            elses += 1
+    return elses >= 2
+
+
 def jobs(tier):
     q = tier == 'quick'
     J = []
     for name, shape in OP_SHAPES.items():
         if not q and name in ('add', 'sub', 'min', 'max', 'numequal'):
             pass
-        J.append(Job('op_' + name, h_op, W=56, setup=setup, params=dict(name=name, shape=shape), budget_s=1500))
+        j = Job('op_' + name, h_op, W=56, setup=setup, params=dict(name=name, shape=shape), budget_s=1500)
+        j.cost = 40 if name in ('sub', 'add', 'min', 'max', 'within') else 5
+        J.append(j)
     for name in ('pick', 'roll'):
         J.append(Job('op_' + name, h_pick_roll, W=56, setup=setup, params=dict(name=name, maxdepth=3 if q else 4, wide=not q), budget_s=1500))
+    ops = [o for o in sorted(interp.CORE_OPCODES) if o not in (0x79, 0x7a)]
+    for k in range(0, len(ops), 5):
+        grp = ops[k:k + 5]
+        J.append(Job('dispatch_%02x-%02x' % (grp[0], grp[-1]), h_dispatch, W=56, setup=setup,
+                     params=dict(opcodes=grp, lens=[0, 1] if q else [0, 1, 2]), budget_s=3000))
+    J.append(Job('dispatch_failing', h_dispatch, W=56, setup=setup, params=dict(opcodes=interp.CORE_FAILING, lens=[0, 1]), budget_s=3000))
+    for o in (0x79, 0x7a):
+        j = Job('dispatch_%02x' % o, h_dispatch, W=56, setup=setup, params=dict(opcodes=[o], lens=[0, 1], maxdepth=2 if q else 3), budget_s=3000)
+        j.cost = 50
+        J.append(j)
+    for opname in ('if', 'notif'):
+        for first in FLOW:
+            J.append(Job('%s_step_%s' % (opname, first), h_if_step, W=56, setup=setup,
+                         params=dict(opname=opname, first=first, length=4 if q else 6), budget_s=6000))
     L = 3 if q else 4
     for first in ALPHABET:
         if first in ('push', 0, 81):
             J.append(Job('prog_%s' % first, h_program, W=56, setup=setup, params=dict(prefix=[first], length=1), budget_s=600))
             for second in ALPHABET:
-                J.append(Job('prog_%s_%s' % (first, second), h_program, W=56, setup=setup,
-                             params=dict(prefix=[first, second], length=L + 1 if (q and first != 'push') else L), budget_s=3000))
+                j = Job('prog_%s_%s' % (first, second), h_program, W=56, setup=setup,
+                        params=dict(prefix=[first, second], length=L + 1 if (q and first != 'push') else L), budget_s=3000)
+                j.cost = 60 if second == 'push' else 10
+                J.append(j)
         else:
             J.append(Job('prog_%s' % first, h_program, W=56, setup=setup, params=dict(prefix=[first], length=L), budget_s=3000))
     return J
